@@ -14,7 +14,7 @@ namespace Astm.C04
     arguments, closures kept by decorators, decorators, assert statements (gone under `python -O`), reads of
     process-wide state and package-internal imports of these modules are exactly those of the reviewed contract. -/
 theorem anchored_code_keeps_no_other_state :
-    Purity.agree ["protocol", "server", "utils", "__init__"] = true := by
+    Purity.agree ["protocol", "server", "utils", "__init__", "codec", "wrapper"] = true := by
   decide +kernel
 
 end Astm.C04
